@@ -176,6 +176,18 @@ EQUIVALENT = {
  ('hooks.go', 28, 'sibling-field'): 'Hooks.Append has no callers in pkg/ (the harness uses it only to build the runtime\'s original container, identically on both sides of every comparison)',
  ('hooks.go', 30, 'sibling-field'): 'as above', ('hooks.go', 32, 'sibling-field'): 'as above',
  ('hooks.go', 98, 'sibling-field'): 'OCI to NRI conversion on the runtime side, no claimed property',
+ # batch 7
+ ('stub.go', 485, 'sibling-field'): 'the server and the client are created together in Start: one is nil exactly when the other is',
+ ('stub.go', 487, 'sibling-field'): 'the listener and the client are created together in Start; the mux Close below closes the client connection too',
+ ('stub.go', 415, 'sibling-field'): 'failed Start only: both fields are overwritten by the next Start before any use, and the mux Close closes the listener',
+ ('adaptation.go', 499, 'sibling-field'): 'log level only', ('plugin.go', 684, 'sibling-field'): 'log level only',
+ ('plugin.go', 417, 'sibling-field'): 'log text only',
+ ('plugin.go', 195, 'int+1'): 'channel capacity 2 instead of 1',
+ ('mux.go', 312, 'delete-assign'): 'a net.Conn read never returns ttrpc.ErrClosed: dead case',
+ ('mux.go', 333, 'sibling-field'): 'a net.Conn read never returns either ttrpc error: dead case',
+ ('mux.go', 266, 'delete-assign'): 'error text only',
+ ('plugin.go', 508, 'binop'): 'equal is clamped to equal either way',
+ ('plugin.go', 249, 'sibling-field'): 'log text only', ('adaptation.go', 592, 'sibling-field'): 'log level only',
 }
 cnt = collections.Counter(r['outcome'].split(' (')[0] for r in rs)
 print(len(rs), 'mutants:', dict(cnt))
